@@ -255,6 +255,16 @@ def task_deformation(arg):
         bad = closure(results, inv)
         if len(bad):
             add(f"C10/{kind}/proposal-not-symmetric", f"{len(bad)} of {len(inv)} inverse gradients have no equally frequent counterpart; max_value={mv}")
+    # default masks belong to their operation: editing one in place must not reach another operation
+    qd = [0.2, 0.9, 0.35, 0.65, 0.8, 0.1]
+    ref_default = np.asarray(cls(0.3).calculate(Ctx(atoms, QuantileRNG(qd), moving)), float)
+    first = cls(0.3)
+    first.mask[2, 2] = False
+    first.mask[0, 1] = False
+    later = np.asarray(cls(0.3).calculate(Ctx(atoms, QuantileRNG(qd), moving)), float)
+    counters["evaluations"] += 2
+    if np.abs(later - ref_default).max() > 0:
+        add(f"C10/{kind}/mask/default-mask-shared-between-operations", f"after editing the default mask of one {cls.__name__} in place, a newly built one returns {js(later)} instead of {js(ref_default)}")
     # masks: identity in masked-out components, unmasked value elsewhere
     qsm = [0.2, 0.9]
     for bits in range(512):
